@@ -293,6 +293,35 @@ func dependsOn(fact map[string]interface{}, id string) bool {
 	return false
 }
 
+// plainCopy is Copy for a fact that is to be stored: what comes back is
+// made of the types that decoding JSON gives, as far as maps go.
+//
+// A Go caller can nest a Map in a fact.  Stored as it is, it is not what
+// the state's code expects of a stored fact (a "rule" is only a rule if
+// it is a map[string]interface{}) - but it is once the location is loaded
+// from storage again: a fact {"rule": Map{"text":"x"}} was accepted as a
+// plain fact, and the location could then not be loaded any more.
+func plainCopy(x interface{}) interface{} {
+	switch vv := x.(type) {
+	case Map:
+		return plainCopy(map[string]interface{}(vv))
+	case map[string]interface{}:
+		acc := make(map[string]interface{}, len(vv))
+		for k, v := range vv {
+			acc[k] = plainCopy(v)
+		}
+		return acc
+	case []interface{}:
+		acc := make([]interface{}, len(vv))
+		for i, v := range vv {
+			acc[i] = plainCopy(v)
+		}
+		return acc
+	default:
+		return Copy(x)
+	}
+}
+
 // withDependency returns the given 'deleteWith' value with the given id
 // in it.  A value that is not a list of ids is returned as it is.
 func withDependency(deleteWith interface{}, id string) interface{} {
@@ -371,7 +400,7 @@ func PrepareFact(ctx *Context, givenId string, x Map) (id string, m map[string]i
 	// change the stored fact in memory, and only there.
 	m = make(map[string]interface{})
 	for p, v := range x {
-		m[p] = Copy(v)
+		m[p] = plainCopy(v)
 	}
 
 	id, err = GenId(ctx, m, givenId)
